@@ -368,9 +368,14 @@ def draw_step(draw, r: Runner, misuse=False):
         mvs = sorted(R.metavars(e))
         pool_ids = (mvs + mvs + list(CFG.ids)) if mvs else list(CFG.ids)
         keys = []
-        for _ in range(draw(st.integers(0, 3))):
-            kk = draw(st.sampled_from(pool_ids))
-            if kk not in keys: keys.append(kk)
+        if draw(st.integers(0, 5)) == 0:
+            # a non-empty instantiation none of whose keys occurs in the term (a no-op that still moves its plugs over the stack)
+            absent = [i for i in list(CFG.ids) + [5, 6] if i not in mvs]
+            keys = list(draw(st.lists(st.sampled_from(absent), min_size=1, max_size=2, unique=True)))
+        else:
+            for _ in range(draw(st.integers(0, 3))):
+                kk = draw(st.sampled_from(pool_ids))
+                if kk not in keys: keys.append(kk)
         nodes = {}
         for nd in R.metavar_nodes(e): nodes.setdefault(nd[1], []).append(nd)
         plugs = []
